@@ -988,6 +988,20 @@ theorem exec_inv {w w' : World} {op : Op} {out : Out} (h : Inv w.s) (he : w.exec
         exact inv_phaseView h hr
     | proxy s => cases he; exact inv_proxy h (hsid s (by simp [Op.sids]))
     | flowProxy s => cases he; exact inv_flowProxy h (hsid s (by simp [Op.sids]))
+    | copy s k R =>
+      simp only [Except.map, World.copyStream] at he
+      split at he
+      · cases he
+      · rename_i r hr
+        obtain ⟨w1, v⟩ := r
+        cases he
+        split at hr
+        · cases hr; exact inv_newStream h _ _ _ _ _ _ _
+        · split at hr
+          · cases hr
+          · split at hr
+            · cases hr
+            · cases hr; exact inv_newStream h _ _ _ _ _ _ _
     | readMol s => cases he; exact h
     | readMass s =>
       cases he
@@ -1729,6 +1743,20 @@ theorem exec_vvalid {Vf : VFun} {w w' : World} {op : Op} {out : Out} (h : Inv w.
         exact vvalid_of_vcs hv (phaseView_vcs hr)
     | proxy s => cases he; exact vvalid_of_vcs hv rfl
     | flowProxy s => cases he; exact vvalid_of_vcs hv rfl
+    | copy s k R =>
+      simp only [Except.map, World.copyStream] at he
+      split at he
+      · cases he
+      · rename_i r hr
+        obtain ⟨w1, v⟩ := r
+        cases he
+        split at hr
+        · cases hr; exact vvalid_of_vcs hv rfl
+        · split at hr
+          · cases hr
+          · split at hr
+            · cases hr
+            · cases hr; exact vvalid_of_vcs hv rfl
     | new1 th ph T P flows =>
       simp only at he
       split at he
@@ -2700,10 +2728,8 @@ theorem unlink_clear_in_place_counterexample :
 
 /-- the same for the non-sharing branch of `link_with` as found -/
 theorem relink_clear_in_place_counterexample :
-    ¬ Inv (((twoStreams.linkShare 1 0 true).linkPlain false 1 1 false false false).massView 1).1.s
-    ∨ ¬ Inv ((((twoStreams.newStream false [] 'l' 0 300 101325 [[4]]).1.linkShare 1 0 true).linkPlain false 1 2 true false
+    ¬ Inv ((((twoStreams.newStream false [] 'l' 0 300 101325 [[4]]).1.linkShare 1 0 true).linkPlain false 1 2 true false
           false).massView 1).1.s := by
-  right
   intro h
   have hbad : ∃ kv ∈ ((((twoStreams.newStream false [] 'l' 0 300 101325 [[4]]).1.linkShare 1 0 true).linkPlain false 1 2
         true false false).massView 1).1.s.caches
